@@ -33,6 +33,8 @@ if TYPE_CHECKING:
 
 
 from exabgp.bgp.message.notification import Notify
+from exabgp.bgp.message.open.asn import AS_TRANS
+from exabgp.bgp.message.update.attribute.aggregator import Aggregator
 from exabgp.bgp.message.update.attribute.aspath import CONFED_SEQUENCE, CONFED_SET, SEQUENCE, SET, AS2Path
 from exabgp.bgp.message.update.attribute.attribute import (
     Attribute,
@@ -370,6 +372,9 @@ class AttributeCollection(MutableMapping[int, Attribute]):
         if Attribute.CODE.AS_PATH in attributes and Attribute.CODE.AS4_PATH in attributes:
             attributes.merge_attributes()
 
+        if Attribute.CODE.AGGREGATOR in attributes and Attribute.CODE.AS4_AGGREGATOR in attributes:
+            attributes.merge_aggregator()
+
         if Attribute.CODE.MP_REACH_NLRI not in attributes and Attribute.CODE.MP_UNREACH_NLRI not in attributes:
             cls.previous = data
             cls.previous_negotiated = negotiated
@@ -560,6 +565,16 @@ class AttributeCollection(MutableMapping[int, Attribute]):
             'parser',
         )
         return left
+
+    def merge_aggregator(self) -> None:
+        # RFC 6793 section 4.2.3: AS4_AGGREGATOR only speaks for an AGGREGATOR which carries AS_TRANS; in both
+        # cases one aggregator is left (the two used to be rendered under the same "aggregator" JSON key)
+        aggregator = self[Attribute.CODE.AGGREGATOR]
+        aggregator4 = self[Attribute.CODE.AS4_AGGREGATOR]
+        self.remove(Attribute.CODE.AS4_AGGREGATOR)
+        if isinstance(aggregator, Aggregator) and isinstance(aggregator4, Aggregator) and aggregator.asn == AS_TRANS:
+            self.remove(Attribute.CODE.AGGREGATOR)
+            self.add(Aggregator.make_aggregator(aggregator4.asn, aggregator4.speaker))
 
     def merge_attributes(self) -> None:
         as2path_attr = self[Attribute.CODE.AS_PATH]
